@@ -46,8 +46,6 @@ Definition pn_status : bytes := [58; 115; 116; 97; 116; 117; 115].
 Definition pn_protocol : bytes := [58; 112; 114; 111; 116; 111; 99; 111; 108].
 Definition hn_host : bytes := [104; 111; 115; 116].
 Definition defined_pseudo : list bytes := [pn_method; pn_scheme; pn_authority; pn_path; pn_status; pn_protocol].
-(* the fixed order in which h3 is expected to write them (RFC 9114 only demands "before regular fields") *)
-Definition pseudo_order : list bytes := [pn_method; pn_scheme; pn_authority; pn_path; pn_status; pn_protocol].
 Definition is_pseudo_name (n : bytes) : bool := match n with 58 :: _ => true | _ => false end.
 
 Definition fieldline := (bytes * bytes)%type.
@@ -104,20 +102,10 @@ Section WF.
   Definition wf_trailersb (fs : list fieldline) : bool := forallb wf_fieldb fs.
 End WF.
 
-(* ---- the send side: what a list of emitted field lines must look like *)
-(* names strictly increasing along pseudo_order: fixed order, each at most once *)
-Fixpoint subseq (l order : list bytes) : Prop :=
-  match l with
-  | [] => True
-  | x :: l' =>
-      (fix go (o : list bytes) : Prop :=
-         match o with
-         | [] => False
-         | y :: o' => (x = y /\ subseq l' o') \/ go o'
-         end) order
-  end.
+(* ---- the send side: what a list of emitted field lines must look like: all pseudo-header fields before any
+   regular field, each at most once (the statement fixes no order among the pseudo fields) *)
 Definition pseudo_first (emitted ps rs : list fieldline) : Prop :=
   emitted = ps ++ rs /\
   Forall (fun f => is_pseudo_name (fst f) = true) ps /\
   Forall (fun f => is_pseudo_name (fst f) = false) rs /\
-  subseq (map fst ps) pseudo_order.
+  NoDup (map fst ps).
